@@ -97,9 +97,9 @@ def copyBidi (c2s : List Bytes) (ce : End) (s2c : List Bytes) (se : End) : BidiR
     clientBytes := a.count, serverBytes := b.count }
 
 /-- `drain_buffers` + relay after a handshake: the read-ahead still in the `BufReader` is written to the other side
-    first, then the relay forwards what arrives on the wire -/
+    first (and counted), then the relay forwards what arrives on the wire -/
 def afterHandshake (s : SS) (e : End) : HalfResult :=
   let r := copyHalf (s.wire.filter (fun c => !c.isEmpty)) e
-  { r with outs := (if s.buf = [] then [] else [.data s.buf]) ++ .flush :: r.outs }
+  { r with outs := (if s.buf = [] then [] else [.data s.buf]) ++ .flush :: r.outs, count := s.buf.length + r.count }
 
 end Redproxy.Relay
